@@ -34,6 +34,7 @@ def main(tier, seed):
     tp = tier_params(tier)
     rep = Report(PROP, tier, seed)
     sess = Session(tp["timeout"])
+    sess.keep_smt2 = tier == "thorough"
     edges = [2, 3] if tier == "quick" else [2, 3, 4, 5]
     rep.bounds = {"two_hot_bin_edges": edges, "two_hot_batch": 2, "huber_batch": 3, "masked_mse_shape": [3, 2],
                   "avg_l1_norm_dims": [1, 2, 3], "linear_schedule_T": "1..8", "fractions": ["1/10", "1/4", "1/2", "1"],
